@@ -102,6 +102,22 @@ void a_que_swap(a_que *lhs, a_que *rhs)
     swap = *lhs;
     *lhs = *rhs;
     *rhs = swap;
+    /* the ring sentinel is embedded in the queue: attach each ring to its new sentinel */
+    if (lhs != rhs)
+    {
+        if (lhs->head_.next == &rhs->head_) { a_list_init(&lhs->head_); }
+        else
+        {
+            lhs->head_.next->prev = &lhs->head_;
+            lhs->head_.prev->next = &lhs->head_;
+        }
+        if (rhs->head_.next == &lhs->head_) { a_list_init(&rhs->head_); }
+        else
+        {
+            rhs->head_.next->prev = &rhs->head_;
+            rhs->head_.prev->next = &rhs->head_;
+        }
+    }
 }
 
 int a_que_drop(a_que *ctx, void (*dtor)(void *))
